@@ -32,17 +32,23 @@ pub struct FProg {
     /// the future checks the flag again after registering (the correct protocol)
     pub recheck: bool,
     pub wakers: Vec<Vec<WOp>>,
+    /// every waking thread has its own flag and the future is ready when all are set
+    #[serde(default)]
+    pub flag_per_waker: bool,
+    /// flags are stored and loaded Relaxed: they are only visible through the ordering a wake provides
+    #[serde(default)]
+    pub relaxed_flags: bool,
 }
 impl FProg {
     pub fn s(&self) -> String {
-        format!("block_on(fut[{}{}])  ||  {}", if self.use_aw { "AtomicWaker" } else { "waker slot in a Mutex" }, if self.recheck { ", re-check after register" } else { ", no re-check" }, self.wakers.iter().map(|t| t.iter().map(|o| format!("{:?}", o)).collect::<Vec<_>>().join("; ")).collect::<Vec<_>>().join("  ||  "))
+        format!("block_on(fut[{}{}{}{}])  ||  {}", if self.use_aw { "AtomicWaker" } else { "waker slot in a Mutex" }, if self.recheck { ", re-check after register" } else { ", no re-check" }, if self.flag_per_waker { ", one flag per waker" } else { "" }, if self.relaxed_flags { ", relaxed flags" } else { "" }, self.wakers.iter().map(|t| t.iter().map(|o| format!("{:?}", o)).collect::<Vec<_>>().join("; ")).collect::<Vec<_>>().join("  ||  "))
     }
 }
 
 // ---- reference -------------------------------------------------------------------------------
 #[derive(Clone, PartialEq, Eq, Hash)]
 struct St {
-    flag: bool,
+    flag: u8,
     registered: bool,
     notified: bool,
     spur_used: bool,
@@ -53,7 +59,8 @@ struct St {
 /// returns (can_deadlock, can_complete)
 fn reference(p: &FProg, spurious: bool) -> (bool, bool) {
     let mut seen: HashSet<St> = HashSet::new();
-    let mut stack = vec![St { flag: false, registered: false, notified: false, spur_used: false, fut: 0, pcs: vec![0; p.wakers.len()] }];
+    let need: u8 = if p.flag_per_waker { (1u8 << p.wakers.len()) - 1 } else { 1 };
+    let mut stack = vec![St { flag: 0, registered: false, notified: false, spur_used: false, fut: 0, pcs: vec![0; p.wakers.len()] }];
     let (mut dl, mut done) = (false, false);
     while let Some(s) = stack.pop() {
         if !seen.insert(s.clone()) {
@@ -64,7 +71,7 @@ fn reference(p: &FProg, spurious: bool) -> (bool, bool) {
         match s.fut {
             0 => {
                 let mut n = s.clone();
-                n.fut = if s.flag { 4 } else { 1 };
+                n.fut = if s.flag & need == need { 4 } else { 1 };
                 succ.push(n);
             }
             1 => {
@@ -75,7 +82,7 @@ fn reference(p: &FProg, spurious: bool) -> (bool, bool) {
             }
             2 => {
                 let mut n = s.clone();
-                n.fut = if s.flag { 4 } else { 3 };
+                n.fut = if s.flag & need == need { 4 } else { 3 };
                 succ.push(n);
             }
             3 => {
@@ -109,7 +116,7 @@ fn reference(p: &FProg, spurious: bool) -> (bool, bool) {
                 let mut n = s.clone();
                 n.pcs[t] += 1;
                 match ops[s.pcs[t] as usize] {
-                    WOp::SetFlag => n.flag = true,
+                    WOp::SetFlag => n.flag |= if p.flag_per_waker { 1 << t } else { 1 },
                     WOp::Wake => {
                         if s.registered {
                             n.registered = false;
@@ -141,11 +148,19 @@ fn reference(p: &FProg, spurious: bool) -> (bool, bool) {
 
 // ---- real loom -------------------------------------------------------------------------------
 struct Shared {
-    flag: AtomicBool,
+    flags: [AtomicBool; 2],
+    need: usize,
+    relaxed: bool,
     slot: loom::sync::Mutex<Option<Waker>>,
     aw: AtomicWaker,
     polls: std::sync::atomic::AtomicUsize,
     wakes: std::sync::atomic::AtomicUsize,
+}
+impl Shared {
+    fn ready(&self) -> bool {
+        let o = if self.relaxed { Relaxed } else { Acquire };
+        (0..self.need).all(|i| self.flags[i].load(o))
+    }
 }
 struct Fut {
     s: Arc<Shared>,
@@ -156,7 +171,7 @@ impl Future for Fut {
     type Output = usize;
     fn poll(self: Pin<&mut Self>, cx: &mut Context<'_>) -> Poll<usize> {
         self.s.polls.fetch_add(1, SeqCst);
-        if self.s.flag.load(Acquire) {
+        if self.s.ready() {
             return Poll::Ready(1);
         }
         if self.use_aw {
@@ -167,7 +182,7 @@ impl Future for Fut {
             let old = std::mem::replace(&mut *self.s.slot.lock().unwrap(), Some(w));
             drop(old);
         }
-        if self.recheck && self.s.flag.load(Acquire) {
+        if self.recheck && self.s.ready() {
             Poll::Ready(1)
         } else {
             Poll::Pending
@@ -184,6 +199,10 @@ pub struct FRun {
 }
 
 pub fn run_loom(p: &FProg, iter_cap: usize) -> FRun {
+    run_loom_bounded(p, iter_cap, None)
+}
+
+pub fn run_loom_bounded(p: &FProg, iter_cap: usize, bound: Option<usize>) -> FRun {
     let iters = Arc::new(std::sync::atomic::AtomicUsize::new(0));
     let rets = Arc::new(std::sync::atomic::AtomicUsize::new(0));
     let excess = Arc::new(std::sync::atomic::AtomicI64::new(i64::MIN));
@@ -193,11 +212,12 @@ pub fn run_loom(p: &FProg, iter_cap: usize) -> FRun {
     let res = std::panic::catch_unwind(std::panic::AssertUnwindSafe(|| {
         let mut b = loom::model::Builder::new();
         b.max_branches = 5000;
+        b.preemption_bound = bound;
         b.check(move || {
             if i2.fetch_add(1, SeqCst) >= iter_cap {
                 panic!("{}", ITER_CAP_MSG);
             }
-            let s = Arc::new(Shared { flag: AtomicBool::new(false), slot: loom::sync::Mutex::new(None), aw: AtomicWaker::new(), polls: Default::default(), wakes: Default::default() });
+            let s = Arc::new(Shared { flags: [AtomicBool::new(false), AtomicBool::new(false)], need: if p2.flag_per_waker { p2.wakers.len().min(2) } else { 1 }, relaxed: p2.relaxed_flags, slot: loom::sync::Mutex::new(None), aw: AtomicWaker::new(), polls: Default::default(), wakes: Default::default() });
             let use_aw = p2.use_aw;
             let mut hs = Vec::new();
             for t in 0..p2.wakers.len() {
@@ -206,7 +226,7 @@ pub fn run_loom(p: &FProg, iter_cap: usize) -> FRun {
                     for op in &p3.wakers[t] {
                         e3.fetch_add(1, SeqCst);
                         match op {
-                            WOp::SetFlag => s2.flag.store(true, Release),
+                            WOp::SetFlag => s2.flags[if p3.flag_per_waker { t.min(1) } else { 0 }].store(true, if p3.relaxed_flags { Relaxed } else { Release }),
                             WOp::Wake => {
                                 if use_aw {
                                     if let Some(w) = s2.aw.take_waker() {
@@ -339,13 +359,21 @@ fn core() -> &'static Vec<FProg> {
             }
             for l in &lists {
                 for recheck in [true, false] {
-                    v.push(FProg { use_aw, recheck, wakers: vec![l.clone()] });
+                    v.push(FProg { use_aw, recheck, wakers: vec![l.clone()], flag_per_waker: false, relaxed_flags: false });
                 }
             }
             // two waker threads
             // (two wakers cost >= 100 000 iterations each: a handful here, more in the random part of the thorough tier)
             for (a, b) in [(vec![SetFlag, Wake], vec![Wake]), (vec![SetFlag], vec![SetFlag, Wake])] {
-                v.push(FProg { use_aw, recheck: true, wakers: vec![a.clone(), b.clone()] });
+                v.push(FProg { use_aw, recheck: true, wakers: vec![a.clone(), b.clone()], flag_per_waker: false, relaxed_flags: false });
+            }
+            // two wakers, each with its own relaxed flag: the flags are only visible through the wakes; when the two
+            // wakes coalesce into one notification the re-poll must still see both
+            v.push(FProg { use_aw, recheck: true, wakers: vec![vec![SetFlag, Wake], vec![SetFlag, Wake]], flag_per_waker: true, relaxed_flags: true });
+            v.push(FProg { use_aw, recheck: true, wakers: vec![vec![SetFlag, Wake], vec![SetFlag, Wake]], flag_per_waker: true, relaxed_flags: false });
+            v.push(FProg { use_aw, recheck: true, wakers: vec![vec![SetFlag, Wake]], flag_per_waker: false, relaxed_flags: true });
+            if !use_aw {
+                v.push(FProg { use_aw, recheck: true, wakers: vec![vec![SetFlag, WakeByRef], vec![SetFlag, WakeByRef]], flag_per_waker: true, relaxed_flags: true });
             }
         }
         v
@@ -367,8 +395,9 @@ pub fn prog_at(seed: u64, idx: usize) -> FProg {
     // assumption the reference model does not make
     let al: Vec<WOp> = if use_aw { vec![WOp::SetFlag, WOp::Wake, WOp::DropWaker] } else { vec![WOp::SetFlag, WOp::Wake, WOp::WakeByRef, WOp::DropWaker] };
     let n = if rng.chance(1, 8) { 2 } else { 1 };
-    let wakers = (0..n).map(|_| (0..1 + rng.below(if n == 1 { 4 } else { 2 })).map(|_| *rng.pick(&al)).collect()).collect();
-    FProg { use_aw, recheck: rng.chance(3, 4), wakers }
+    let wakers: Vec<Vec<WOp>> = (0..n).map(|_| (0..1 + rng.below(if n == 1 { 4 } else { 2 })).map(|_| *rng.pick(&al)).collect()).collect();
+    let two = wakers.len() == 2;
+    FProg { use_aw, recheck: rng.chance(3, 4), wakers, flag_per_waker: two && rng.chance(1, 2), relaxed_flags: rng.chance(1, 3) }
 }
 
 pub fn judge(p: &FProg, rec: &mut Rec, tier: u8) {
@@ -377,7 +406,11 @@ pub fn judge(p: &FProg, rec: &mut Rec, tier: u8) {
     rec.extra = json!({"family": "fut"});
     let (must_dl, _) = reference(p, false);
     let (may_dl, may_done) = reference(p, true);
-    let r = run_loom(p, if tier == 0 { 500_000 } else { 3_000_000 });
+    // two wakers with one flag each need > 500 000 iterations unbounded: explored with a preemption bound of 2
+    // (3 in the thorough tier); only the soundness clauses (no false deadlock, output returned, poll count) are
+    // decided for them
+    let bounded = p.flag_per_waker && p.wakers.len() >= 2;
+    let r = if bounded { run_loom_bounded(p, 500_000, Some(if tier == 0 { 2 } else { 3 })) } else { run_loom(p, if tier == 0 { 500_000 } else { 3_000_000 }) };
     rec.runs = 1;
     rec.iters = r.iters as u64;
     rec.events = r.events as u64;
@@ -394,7 +427,7 @@ pub fn judge(p: &FProg, rec: &mut Rec, tier: u8) {
         }
         Some(other) => rec.v("unexpected_panic", format!("{} @ {}", other.short(), last_panic_file()), r.panic.clone().unwrap_or_default()),
         None => {
-            if must_dl {
+            if must_dl && !bounded {
                 rec.v("missed_deadlock", "", "no wake can arrive in some execution, yet loom::model returned normally".to_string());
             }
             if r.returned != r.iters {
